@@ -3,7 +3,7 @@ Each harness runs one real method of one real node class from the IR, on a node 
 and whose content is an opaque test double, decodes the real result objects back from symbolic memory and compares the nested-list
 value with Python list semantics applied to the input value.  Counterexamples are replayed through the public API of a natively
 built libawkward (akrun) on real arrays."""
-import itertools, re, z3
+import itertools, os, re, z3
 from . import runner, nodeh, fullnative
 from .llbmc import same_off as _same_off
 from .nodeh import NodeCtx, BV, Elem, NONE, compare, decode, value, concrete, SRC
@@ -37,7 +37,11 @@ def build_listoffset64(nc, lens, name='node', width='64'):
         arr = z3.Store(arr, BV(i), o if bits == 64 else z3.Extract(bits - 1, 0, o))
     data = nc.m.array(name + '_offsets', ('i', bits), n + 1, const=True, arr=arr)
     top = 2 ** 40 if bits == 64 else (2 ** 31 - 1 if not uns else 2 ** 32 - 1) - sum(lens)
-    nc.m.assume(first >= 0, first <= top, offs[-1] <= nc.lencontent)
+    if os.environ.get('VF_WILD_EMPTY') == '1' and sum(lens) == 0:
+        # experiment: lists that are all empty may have their (equal) offsets anywhere - the documented validity rule exempts start == stop
+        nc.m.assume(first >= (-2 ** 20 if not uns else 0), first <= top)
+    else:
+        nc.m.assume(first >= 0, first <= top, offs[-1] <= nc.lencontent)
     cells = nc.content_header(name, nc.vptr_of('N7awkward17ListOffsetArrayOfI%sEE' % T, 'LOA'))
     nc.index_cells(cells, fo[1], data, BV(0), BV(n + 1), mangled_T=T)
     cells.update({fo[2]: (nc.content0, 8), fo[2] + 8: (NULL, 8), fo[3]: (BV(0, 8), 1)})
